@@ -313,6 +313,10 @@ func sqlScenarios(prop string, thorough bool) []*sqlScenario {
 		add("write-skew", txn(point(1), updV("w1", 2)), txn(point(2), updV("w2", 1)))
 		add("repeatable-read", txn(point(2), point(2)), one(updV("w2", 2)))
 		add("range-read-vs-writer", txn(rng, updV("w1", 1)), one(updV("w2", 3)))
+		// a writer of two rows next to readers of both rows (a reader that slips past one of the writer's
+		// locks sees half of the transaction)
+		add("two-row-writer||range-reader", txn(updV("w1", 1), updV("w1b", 3)), one(rng))
+		add("two-row-writer||two-point-reader", txn(updV("w1", 1), updV("w1b", 3)), txn(point(3), point(1)))
 		if thorough {
 			add("scan-read-vs-writer", txn(scan, updV("w1", 1)), one(updV("w2", 3)))
 			add("three-way", txn(point(1), updV("w1", 2)), txn(point(2), updV("w2", 3)), txn(point(3), updV("w3", 1)))
